@@ -74,8 +74,13 @@ class ScriptSocket(object):
                 send, recv raises OverRead.
     """
 
-    def __init__(self, stream, ctl, gate=None, peer=('192.0.2.1', 4321), eof=True):
+    def __init__(self, stream, ctl, gate=None, peer=('192.0.2.1', 4321), eof=True, tls_stream=None):
         self.stream = stream
+        self.tls_stream = tls_stream    # None: transparent fake TLS (same stream continues)
+        self.in_tls = False
+        self.clear_len = None
+        self.tls_marks = []             # indexes into self.out written through the TLS wrapper
+        self.recv_log = []              # (pos, len(out)) at every recv call
         self.pos = 0
         self.out = []
         self.ctl = ctl
@@ -95,8 +100,19 @@ class ScriptSocket(object):
             limit = min(limit, self.gate(self))
         return max(0, limit - self.pos)
 
+    def switch_to_tls(self):
+        """Called by FakeContext.wrap_socket: the handshake happens here."""
+        if self.tls_stream is not None:
+            if self.pos < len(self.stream):
+                from gevent.ssl import SSLError
+                raise SSLError(1, 'handshake failure: %d clear-text bytes in the way' % (len(self.stream) - self.pos))
+            self.clear_len = len(self.stream)
+            self.stream = self.stream + self.tls_stream
+        self.in_tls = True
+
     def recv(self, n=4096, *flags):
         self.recv_calls += 1
+        self.recv_log.append((self.pos, len(self.out)))
         avail = min(n, self._available())
         if avail <= 0:
             if self.gate is not None and self.pos < len(self.stream):
